@@ -182,7 +182,7 @@ func c20Mux(c *Ctx) {
 		}
 	}
 	c.Bound("mux.messages", fmt.Sprintf("%d messages: topic in {a, a/b} x payload length in {0,1,3} (spare capacity 8) x QoS 0..2 x Retain x Dup x ID in {0,7}", len(msgs)))
-	c.Bound("mux.handlers", fmt.Sprintf("%d lists: every list of 1..3 handlers (filters %q by position, all matching), each mutating one of %q after recording what it saw; the retained pointers are mutated a second time after Serve returned; the same message is served twice and then a fresh different message once through the same mux", len(lists), c20Filters, c20MutNames))
+	c.Bound("mux.handlers", fmt.Sprintf("%d lists: every list of 1..3 handlers in three layouts (filters %q by position, all matching | all under the same filter string '#' | the first handler on the outer mux and the others in a nested ServeMux registered under '#'), each mutating one of %q after recording what it saw; the retained pointers are mutated a second time after Serve returned; the same message is served twice and then a fresh different message once through the same mux", len(lists), c20Filters, c20MutNames))
 
 	var cases int64
 	for li, l := range lists {
@@ -197,81 +197,101 @@ func c20Mux(c *Ctx) {
 		for i, k := range l {
 			names[i] = c20MutNames[k]
 		}
-		for _, md := range msgs {
-			type seen struct {
-				pos  int
-				snap c20Snap
+		for _, layout := range []string{"distinct-filters", "same-filter", "nested-mux"} {
+			if layout != "distinct-filters" && len(l) < 2 {
+				continue
 			}
-			var log []seen
-			var held []*mqtt.Message
-			mux := &mqtt.ServeMux{}
-			for pos, kind := range l {
-				pos, kind := pos, kind
-				if err := mux.Handle(c20Filters[pos], mqtt.HandlerFunc(func(m *mqtt.Message) {
-					log = append(log, seen{pos, c20Take(m)})
-					held = append(held, m)
-					c20Mutate(m, kind)
-				})); err != nil {
-					c.EnumFail("mux", "handle-error", fmt.Sprintf("Handle(%q): %v", c20Filters[pos], err), nil)
+			for _, md := range msgs {
+				type seen struct {
+					pos  int
+					snap c20Snap
 				}
-			}
-			input := map[string]any{"message": fmt.Sprint(c20Take(md.build())), "handler_mutations": names}
-			effective := false
-			for _, k := range l {
-				if k != c20MutByte0 || md.plen > 0 {
-					effective = true
-				}
-			}
-			cases++
-			if effective {
-				c.Res.Distinct++
-			}
-
-			msg := md.build()
-			orig := c20Take(msg)
-			origPayload := msg.Payload
-			serve := func(round string, m *mqtt.Message, want c20Snap) {
-				log = log[:0]
-				first := len(held)
-				mux.Serve(m)
-				if len(log) != len(l) {
-					c.EnumFail("mux", "invocations/"+round, fmt.Sprintf("%d handler invocations, want %d", len(log), len(l)), input)
-				}
-				for _, s := range log {
-					if d := c20Diff(s.snap, want); d != "" {
-						c.EnumFail("mux", fmt.Sprintf("handler-saw-other-content/%s/%s", round, c20K(d)),
-							fmt.Sprintf("handler #%d observed %v, the served message was %v (fields %s differ)", s.pos, s.snap, want, d), input)
+				var log []seen
+				var held []*mqtt.Message
+				mux := &mqtt.ServeMux{}
+				inner := &mqtt.ServeMux{}
+				for pos, kind := range l {
+					pos, kind := pos, kind
+					filter, target := c20Filters[pos], mux
+					switch layout {
+					case "same-filter":
+						filter = "#" // every handler under the very same filter string
+					case "nested-mux":
+						if pos > 0 {
+							target = inner // all but the first handler sit in a mux that is itself a handler of the outer one
+						}
+					}
+					if err := target.Handle(filter, mqtt.HandlerFunc(func(m *mqtt.Message) {
+						log = append(log, seen{pos, c20Take(m)})
+						held = append(held, m)
+						c20Mutate(m, kind)
+					})); err != nil {
+						c.EnumFail("mux", "handle-error", fmt.Sprintf("Handle(%q): %v", filter, err), nil)
+					}
+					if layout == "nested-mux" && pos == 0 {
+						if err := mux.Handle("#", inner); err != nil {
+							c.EnumFail("mux", "handle-error", fmt.Sprintf("Handle(\"#\", inner mux): %v", err), nil)
+						}
 					}
 				}
-				// handlers keep what they received and change it again after Serve has returned
-				for i := first; i < len(held) && i-first < len(log); i++ {
-					c20Mutate(held[i], l[log[i-first].pos])
+				input := map[string]any{"message": fmt.Sprint(c20Take(md.build())), "handler_mutations": names, "layout": layout}
+				effective := false
+				for _, k := range l {
+					if k != c20MutByte0 || md.plen > 0 {
+						effective = true
+					}
 				}
-			}
-			serve("first", msg, orig)
-			if d := c20Diff(c20Take(msg), orig); d != "" || (len(origPayload) > 0 && &msg.Payload[0] != &origPayload[0]) {
-				if d == "" {
-					d = "Payload-slice-replaced"
+				cases++
+				if effective {
+					c.Res.Distinct++
 				}
-				c.EnumFail("mux", "caller-message-changed/"+c20K(d), fmt.Sprintf("caller's message is %v after Serve, was %v", c20Take(msg), orig), input)
-			}
-			// the same message object served again: a later message
-			serve("same-message-again", msg, orig)
-			if d := c20Diff(c20Take(msg), orig); d != "" {
-				c.EnumFail("mux", "caller-message-changed/"+c20K(d), fmt.Sprintf("caller's message is %v after second Serve, was %v", c20Take(msg), orig), input)
-			}
-			// a fresh, different message through the same mux
-			m2 := &mqtt.Message{Topic: "a/b", ID: md.id + 1, QoS: (md.qos + 1) % 3, Retain: !md.retain, Dup: !md.dup, Payload: c20Payload(2, 0x40)}
-			if md.topic == "a/b" {
-				m2.Topic = "a"
-			}
-			want2 := c20Take(m2)
-			serve("later-message", m2, want2)
-			if d := c20Diff(c20Take(m2), want2); d != "" {
-				c.EnumFail("mux", "caller-message-changed/"+c20K(d), fmt.Sprintf("caller's later message is %v after Serve, was %v", c20Take(m2), want2), input)
-			}
-			if li == 200 && md.plen == 3 && md.qos == 1 && md.retain && !md.dup && md.id == 7 && md.topic == "a/b" {
-				c.Sample(map[string]any{"part": "mux", "message": fmt.Sprint(orig), "handler_mutations": names, "each_handler_observed": fmt.Sprint(orig), "caller_after": fmt.Sprint(c20Take(msg))})
+
+				msg := md.build()
+				orig := c20Take(msg)
+				origPayload := msg.Payload
+				serve := func(round string, m *mqtt.Message, want c20Snap) {
+					log = log[:0]
+					first := len(held)
+					mux.Serve(m)
+					if len(log) != len(l) {
+						c.EnumFail("mux", "invocations/"+round, fmt.Sprintf("%d handler invocations, want %d", len(log), len(l)), input)
+					}
+					for _, s := range log {
+						if d := c20Diff(s.snap, want); d != "" {
+							c.EnumFail("mux", fmt.Sprintf("handler-saw-other-content/%s/%s", round, c20K(d)),
+								fmt.Sprintf("handler #%d observed %v, the served message was %v (fields %s differ)", s.pos, s.snap, want, d), input)
+						}
+					}
+					// handlers keep what they received and change it again after Serve has returned
+					for i := first; i < len(held) && i-first < len(log); i++ {
+						c20Mutate(held[i], l[log[i-first].pos])
+					}
+				}
+				serve("first", msg, orig)
+				if d := c20Diff(c20Take(msg), orig); d != "" || (len(origPayload) > 0 && &msg.Payload[0] != &origPayload[0]) {
+					if d == "" {
+						d = "Payload-slice-replaced"
+					}
+					c.EnumFail("mux", "caller-message-changed/"+c20K(d), fmt.Sprintf("caller's message is %v after Serve, was %v", c20Take(msg), orig), input)
+				}
+				// the same message object served again: a later message
+				serve("same-message-again", msg, orig)
+				if d := c20Diff(c20Take(msg), orig); d != "" {
+					c.EnumFail("mux", "caller-message-changed/"+c20K(d), fmt.Sprintf("caller's message is %v after second Serve, was %v", c20Take(msg), orig), input)
+				}
+				// a fresh, different message through the same mux
+				m2 := &mqtt.Message{Topic: "a/b", ID: md.id + 1, QoS: (md.qos + 1) % 3, Retain: !md.retain, Dup: !md.dup, Payload: c20Payload(2, 0x40)}
+				if md.topic == "a/b" {
+					m2.Topic = "a"
+				}
+				want2 := c20Take(m2)
+				serve("later-message", m2, want2)
+				if d := c20Diff(c20Take(m2), want2); d != "" {
+					c.EnumFail("mux", "caller-message-changed/"+c20K(d), fmt.Sprintf("caller's later message is %v after Serve, was %v", c20Take(m2), want2), input)
+				}
+				if li == 200 && md.plen == 3 && md.qos == 1 && md.retain && !md.dup && md.id == 7 && md.topic == "a/b" {
+					c.Sample(map[string]any{"part": "mux", "layout": layout, "message": fmt.Sprint(orig), "handler_mutations": names, "each_handler_observed": fmt.Sprint(orig), "caller_after": fmt.Sprint(c20Take(msg))})
+				}
 			}
 		}
 	}
